@@ -48,7 +48,7 @@ func (cr *clRun) noteHolders(s *snapRec) {
 			continue
 		}
 		for _, rn := range cr.c.reps {
-			if rn.addr == r.Address && rn.up {
+			if cr.serves(rn, r.Address) {
 				if _, err := readFileTrim(filepath.Join(rn.dir, s.disk+".meta")); err == nil {
 					s.holders[rn.addr] = true
 				}
@@ -360,7 +360,7 @@ func (cr *clRun) judgeAdmin(a *adminOp, op Op, pre map[string]string, idleBefore
 				continue
 			}
 			for _, rn := range c.reps {
-				if rn.addr == r.Address && rn.up {
+				if cr.serves(rn, r.Address) {
 					var vm volMeta
 					if err := readJSON(filepath.Join(rn.dir, "volume.meta"), &vm); err == nil && vm.Size != newSize {
 						cr.viol("C16", "replica-size-not-updated", "after resize to %d replica %s (%s) persists size %d", newSize, rn.name, r.Mode, vm.Size)
@@ -524,7 +524,7 @@ func (cr *clRun) checkSnapshotsAcrossReplicas(when string) {
 	for _, r := range list {
 		if r.Mode == types.RW {
 			for _, rn := range c.reps {
-				if rn.addr == r.Address && rn.up {
+				if cr.serves(rn, r.Address) {
 					rws = append(rws, rn)
 				}
 			}
@@ -711,7 +711,7 @@ func (cr *clRun) deepChecks(when string, promoted string) {
 	for _, r := range list {
 		if r.Mode == types.RW {
 			for _, rn := range c.reps {
-				if rn.addr == r.Address && rn.up {
+				if cr.serves(rn, r.Address) {
 					rws = append(rws, rn)
 				}
 			}
@@ -973,7 +973,7 @@ func (cr *clRun) chainsOnDisk(target *repNode) *chainPair {
 			continue
 		}
 		for _, rn := range c.reps {
-			if rn.addr == r.Address && rn.up {
+			if cr.serves(rn, r.Address) {
 				if p.rw, _, ok = names(rn); ok {
 					return p
 				}
